@@ -13,6 +13,8 @@ A case is a dict:
 """
 from __future__ import annotations
 
+import os
+
 import lib
 import bufrlib as B
 from tmplgen import TemplateGen
@@ -74,6 +76,9 @@ def attach_templates(cases):
         except Exception as e:
             c['toks'] = None
             c['template_error'] = lib.err_code(e)
+            if os.environ.get('VERIF_DEBUG_TMPL'):
+                with open(os.environ['VERIF_DEBUG_TMPL'], 'a') as f:
+                    f.write('%s %s %r\n' % (sorted(c.get('features', {})), c['ids'], e))
     return cases
 
 
